@@ -245,6 +245,58 @@ crate::harness! {
     }
 }
 
+crate::harness! {
+    #[kani::unwind(7)]
+    fn c01_replay_fidelity_4() {
+        let t0 = mk_task(0);
+        let t1 = mk_task(1);
+        let mut steps = Vec::with_capacity(4);
+        let s0 = any_rec_step();
+        let s1 = any_rec_step();
+        let s2 = any_rec_step();
+        let s3 = any_rec_step();
+        let kinds = [s0.clone(), s1.clone(), s2.clone(), s3.clone()];
+        steps.push(s0);
+        steps.push(s1);
+        steps.push(s2);
+        steps.push(s3);
+        let seed: u64 = 11;
+        let mut r = ReplayScheduler::new_from_schedule(Schedule { seed, steps });
+        let e = r.new_execution();
+        assert!(e.is_some());
+        std::mem::forget(e);
+        // reference data stream
+        let mut ds = RandomDataSource::initialize(seed);
+        ds.reinitialize();
+        let mut i = 0;
+        let mut cur: Option<TaskId> = None;
+        crate::unroll!(4, {
+            match kinds[i] {
+                ScheduleStep::Random => {
+                    // the program draws: the marker is consumed and the draw equals the seeded stream
+                    let d = r.next_u64();
+                    assert!(d == ds.next_u64(), "C01: replayed random draw differs from the seeded stream");
+                    kani::cover!(true, "a random marker was replayed");
+                }
+                ScheduleStep::Task(want) => {
+                    // both tasks runnable, offered in ascending id order; other arguments arbitrary
+                    let y: bool = kani::any();
+                    let offered: [&Task; 2] = [&t0, &t1];
+                    let got = r.next_task(&offered, cur, y);
+                    assert!(got == Some(want), "C01: replay scheduled a different task than recorded");
+                    cur = got;
+                    kani::cover!(want == TaskId::from(1), "task 1 was replayed");
+                }
+            }
+            i += 1;
+        });
+        std::mem::forget(r);
+        std::mem::forget(t0);
+        std::mem::forget(t1);
+    }
+}
+
+
 // ---- C01 / C08: the uncontrolled-nondeterminism checker ---------------------------------------------------
 // Recording execution: decisions pass through unchanged (C08). Replay execution fed the same calls
 // with the same arguments: never a "possible nondeterminism" panic, the recorded answers are
